@@ -46,6 +46,11 @@ func fromu32(x uint32) string { return string(rune(x)) }
 func cat(a string, b string) []string { c := a + b; d := a; d += b; return []string{a, b, c, d} }
 func cmp(a string, b string) []bool { return []bool{a < b, a <= b, a == b, a != b, a > b, a >= b} }
 func mutcopy(s string) []string { b := []byte(s); if len(b) > 0 { b[0] = b[0] + 1 }; return []string{s, string(b)} }
+func conv2(s string) []string { b := []byte(s); r := []string{string(b)}; if len(b) > 1 { t := b[1:]; t[0] = 'E'; r = append(r, string(b)); copy(b, []byte("J")); r = append(r, string(b)); u := b[:1]; u = append(u, 'Q'); r = append(r, string(b), string(u), string(t)) }; r = append(r, string(b), s); return r }
+func conv3(s string) []string { b := []byte(s); keep := string(b); for i := range b { b[i] = b[i] + 1 }; again := string(b); b = append(b, '!'); return []string{keep, again, string(b), string(b[:len(b)-1]), s} }
+func lit0(s string) []int { a := s[0] + 200; c := s[0] + s[1] + s[2]; d := s[1] - s[2]; e := s[0] * 2; f := s[2]; f += 100; return []int{int(a), int(c), int(d), int(e), int(f), int(s[1] >> 1 << 2)} }
+func lit0l() []int { s := "xyz\xff"; t := s; return []int{int(s[0] + s[1]), int(s[3] + 1), int(s[2] - 'z' - 1), int(t[3] + t[3])} }
+func lit0t(s string) byte { return s[0] + 200 }
 func bytesidx(s string) []int { r := []int{}; for i := 0; i < len(s); i++ { r = append(r, int(s[i])) }; return r }
 `
 
@@ -256,6 +261,62 @@ func (w *c13Worker) check(c c13Case) string {
 		v, e := w.call("fromrune", goatlang.Int32(r))
 		if e != "" || v.String() != string(r) {
 			return fail(fmt.Sprintf("string(rune(%d))", c.I), string(r), e+v.String())
+		}
+	case "reconvert":
+		// string(b) is a copy of the bytes at that moment, whatever was converted before and however b changed since
+		native2 := func(s string) []string {
+			b := []byte(s)
+			r := []string{string(b)}
+			if len(b) > 1 {
+				t := b[1:]
+				t[0] = 'E'
+				r = append(r, string(b))
+				copy(b, []byte("J"))
+				r = append(r, string(b))
+				u := b[:1]
+				u = append(u, 'Q')
+				r = append(r, string(b), string(u), string(t))
+			}
+			return append(r, string(b), s)
+		}
+		native3 := func(s string) []string {
+			b := []byte(s)
+			keep := string(b)
+			for i := range b {
+				b[i] = b[i] + 1
+			}
+			again := string(b)
+			b = append(b, '!')
+			return []string{keep, again, string(b), string(b[:len(b)-1]), s}
+		}
+		for _, f := range []struct {
+			name string
+			nat  func(string) []string
+		}{{"conv2", native2}, {"conv3", native3}} {
+			v, e := w.call(f.name, S(s))
+			want := f.nat(s)
+			if e != "" || strings.Join(sliceToStrings(v), "\x00") != strings.Join(want, "\x00") {
+				return fail(f.name+": conversions of one byte slice before and after writes through it, through an alias, copy and append", fmt.Sprintf("%q", want), e+fmt.Sprintf("%q", sliceToStrings(v)))
+			}
+		}
+	case "litindex":
+		// a string held in a local, indexed by integer literals: the elements are bytes (arithmetic wraps at 256)
+		if len(s) >= 3 {
+			a, c0, d, e0, f := s[0]+200, s[0]+s[1]+s[2], s[1]-s[2], s[0]*2, s[2]+100
+			want := fmt.Sprint([]int{int(a), int(c0), int(d), int(e0), int(f), int(s[1] >> 1 << 2)})
+			v, e := w.call("lit0", S(s))
+			if e != "" || v.String() != want {
+				return fail("byte arithmetic on s[0], s[1], s[2] of a parameter", want, e+v.String())
+			}
+			v, e = w.call("lit0t", S(s))
+			if e != "" || v.Int() != int(a) || w.m.VM.VerifTypeOf(v) != "uint8" {
+				return fail("s[0] + 200 (value, type)", fmt.Sprint(a, " uint8"), e+v.String()+" "+w.m.VM.VerifTypeOf(v))
+			}
+		}
+		x := "xyz\xff"
+		want := fmt.Sprint([]int{int(x[0] + x[1]), int(x[3] + 1), int(x[2] - 'z' - 1), int(x[3] + x[3])})
+		if v, e := w.call("lit0l"); e != "" || v.String() != want {
+			return fail("byte arithmetic on literal-indexed elements of a local string", want, e+v.String())
 		}
 	case "byteslit":
 		for k := 0; k < 3; k++ {
@@ -478,6 +539,7 @@ func c13Gen(seed int64, idx int) []c13Case {
 	cs = append(cs, c13Case{Op: "rune", I: core.Pick(rng, []int{0, 65, 0xe9, 0x20ac, 0x1d11e, 0xd800, 0x10ffff, 0x110000, -1, 127, 128, 0xfffd})})
 	cs = append(cs, c13Case{Op: "rune", I: rng.Intn(0x11000)})
 	cs = append(cs, c13Case{Op: "byteslit", I: rng.Intn(4)})
+	cs = append(cs, c13Case{Op: "reconvert", S: []byte(s)}, c13Case{Op: "litindex", S: []byte(s)})
 	cs = append(cs, c13Case{Op: "byteconv", I: rng.Intn(256), S: []byte(s)}, c13Case{Op: "byteconv", I: 128 + rng.Intn(128), S: []byte(s)})
 	for k := 0; k < 3; k++ {
 		cs = append(cs, c13Case{Op: "literal", Lit: c13RandLiteral(rng)}, c13Case{Op: "charlit", Lit: c13RandCharLit(rng)})
@@ -492,7 +554,7 @@ func c13Gen(seed int64, idx int) []c13Case {
 }
 
 func runC13(r *core.Run) {
-	r.SetRule("strings over ASCII, 2/3/4-byte runes, combining marks and invalid UTF-8 (lone continuation bytes, truncated sequences, surrogates, NUL) reach script functions as host-supplied arguments: len, s[i] (value, type uint8 and byte arithmetic) for every index incl. one past each end, s[i:j] for every pair incl. out-of-range ones (must be errors), the three range forms (byte offsets, runes, U+FFFD), []byte(s), string([]byte), []byte(literal) evaluated repeatedly with writes in between, string(rune) incl. invalid code points, string(b) for byte / s[i] / int8 / uint32 operands (the code point's encoding, not the byte), a+b and += with the operands checked afterwards, the six comparisons; plus generated interpreted, raw and character literal spellings (all escape forms) evaluated by Eval. non-trivial = the operation returned a value (not an expected error); distinct by (operation, operands)")
+	r.SetRule("strings over ASCII, 2/3/4-byte runes, combining marks and invalid UTF-8 (lone continuation bytes, truncated sequences, surrogates, NUL) reach script functions as host-supplied arguments: len, s[i] (value, type uint8 and byte arithmetic) for every index incl. one past each end, s[i:j] for every pair incl. out-of-range ones (must be errors), the three range forms (byte offsets, runes, U+FFFD), []byte(s), string([]byte), []byte(literal) evaluated repeatedly with writes in between, string(rune) incl. invalid code points, string(b) for byte / s[i] / int8 / uint32 operands (the code point's encoding, not the byte), a+b and += with the operands checked afterwards, the six comparisons, repeated string(b) conversions of one byte slice with writes through it, an alias, copy and append in between, byte arithmetic on literal-indexed elements of local strings; plus generated interpreted, raw and character literal spellings (all escape forms) evaluated by Eval. non-trivial = the operation returned a value (not an expected error); distinct by (operation, operands)")
 	r.Assume("native Go string operations and strconv.Unquote/UnquoteChar are the specification")
 	n := r.N(10000, 200000)
 	core.Parallel((n+49)/50, func(chunk int) {
